@@ -118,14 +118,20 @@ impl RoutePath {
                         match next_segment {
                             Segment::Param(next_param) => {
                                 let mut capture = Vec::new();
+                                let mut found = false;
                                 for next_path in &mut paths {
                                     if next_path == next_param {
-                                        captures.push(Capture::DynSegments(capture));
+                                        found = true;
                                         break;
                                     } else {
-                                        capture.push(next_path);
+                                        capture.push(*next_path);
                                     }
                                 }
+                                if !found {
+                                    // The terminating segment never appears: no match.
+                                    return None;
+                                }
+                                captures.push(Capture::DynSegments(capture));
                             }
                             _ => unreachable!("segment following DynSegments cannot be dynamic"),
                         }
